@@ -38,18 +38,23 @@ Is(e) == l <= Len(Rec) /\ Rec[l].ev = e /\ l' = l + 1
 Verdict(tag, p) == p \/ PrintT("VP|fail|" \o ToString(E.case) \o "|" \o tag)
 
 \* ---- navigate -------------------------------------------------------------
-\* where the current file's directory is spelled with `.' or empty components
-\* the code is known to count them as directory levels: tagged apart
-Spelling == IF CleanDir(E.cur) THEN "" ELSE ":unclean-current"
+\* KNOWN: a `.' component in the directory of the current file counts as a
+\* directory level in the code (CodedNavigate; pinned by the repository's own
+\* tests).  A negative verdict on an observation that has such a current file
+\* AND is exactly what CodedNavigate predicts is tagged `dot-in-current';
+\* anything else (also with such a current file) is tagged plainly.
+DotTag(cur, asPredicted) == IF DotInDir(cur) /\ asPredicted THEN ":dot-in-current" ELSE ""
 
 TNavigate ==
     /\ Is("navigate")
-    /\ LET n == Navigate(E.cur, E.rel) IN
+    /\ LET n == Navigate(E.cur, E.rel)
+           obs == [ok |-> E.ok, path |-> IF E.ok THEN E.res ELSE <<>>]
+           sfx == DotTag(E.cur, obs = CodedNavigate(E.cur, E.rel)) IN
        RelativeName(E.cur) =>
-          /\ Verdict("confined" \o Spelling, E.ok => Confined(E.res))
-          /\ Verdict("accepts-outside" \o Spelling, E.ok => n.ok)
-          /\ Verdict("rejects-inside" \o Spelling, n.ok => E.ok)
-          /\ Verdict("wrong-file" \o Spelling, (E.ok /\ n.ok) => Canon(E.res) = n)
+          /\ Verdict("confined", E.ok => Confined(E.res))
+          /\ Verdict("accepts-outside" \o sfx, E.ok => n.ok)
+          /\ Verdict("rejects-inside" \o sfx, n.ok => E.ok)
+          /\ Verdict("wrong-file" \o sfx, (E.ok /\ n.ok) => Canon(E.res) = n)
 
 \* ---- expand ---------------------------------------------------------------
 NFilesOf(e) == Len(e.files)
@@ -68,15 +73,13 @@ WellFormed(e) ==
                 Navigate(e.files[f].path, e.files[f].incs[i].rel)
                     = [ok |-> TRUE, path |-> e.files[e.files[f].incs[i].to].path]
 
-\* does the machine in the order of checks of the current code predict the
-\* error?  (only used to tell the known disagreement apart in the tag)
-AsCodedErrs(G, root) ==
-    MRun(G, MInit(G, root, FALSE), FALSE, 400).status = "error"
-
 \* rootname: the root file as it was named to the assembler (on the real file
 \* system the same file can be named `./f1.asm'); the declared expansion does
-\* not depend on it
-RootSpelling == IF CleanDir(E.rootname) THEN "" ELSE ":unclean-current"
+\* not depend on it.  KNOWN: named with a `.' component, the code knows one
+\* file under two names (`./d/f2.asm' and, through a leading separator,
+\* `d/f2.asm'), so #once and the cycle check miss; every graph is also run
+\* with the plain root name, which is judged without the tag.
+RootSpelling == IF DotInDir(E.rootname) THEN ":dot-in-current" ELSE ""
 
 \* in-process runs say crash; runs of the executable give exit status and signal
 ExpCrashed == E.crash \/ E.signal # 0 \/ E.code = 101
@@ -89,8 +92,7 @@ TExpand ==
          LET G == GraphOf(E)
              x == Expand(G, E.root) IN
          /\ Verdict("missed-cycle" \o RootSpelling, E.ok => x.ok)
-         /\ Verdict((IF AsCodedErrs(G, E.root) THEN "spurious-error:once-file-on-stack" ELSE "spurious-error")
-                        \o RootSpelling, x.ok => E.ok)
+         /\ Verdict("spurious-error" \o RootSpelling, x.ok => E.ok)
          /\ Verdict("markers" \o RootSpelling, (E.ok /\ x.ok) => E.markers = x.out)
 
 \* ---- incrange -------------------------------------------------------------
@@ -110,13 +112,19 @@ InTree(p) == \E i \in 1..Len(E.tree) : E.tree[i] = p
 
 Crashed == E.signal # 0 \/ E.code = 101        \* killed, or Rust's panic exit status
 
+\* `<std>/name' is the built-in library; a name that is not in the library
+\* is looked up on disk, where a project directory literally called `<std>'
+\* can supply it: that file is inside the working directory (tree)
 TEscape ==
     /\ Is("escape")
     /\ LET n == Navigate(E.cur, E.rel)
-           inside == IF IsStd(E.rel) THEN E.builtin ELSE n.ok /\ InTree(n.path)
-           kind == IF IsStd(E.rel) THEN ":std" ELSE Spelling IN
-       /\ Verdict("crash" \o kind, ~Crashed)
-       /\ Verdict("leak" \o kind, ~E.leak)
+           inside == n.ok /\ (IF IsStd(E.rel) THEN E.builtin \/ InTree(E.rel) ELSE InTree(n.path))
+           c == CodedNavigate(E.cur, E.rel)
+           codedInside == c.ok /\ Canon(c.path).ok /\ InTree(Canon(c.path).path)
+           kind == IF IsStd(E.rel) THEN ":std"
+                   ELSE DotTag(E.cur, ~Crashed /\ ~E.leak /\ ((E.code = 0) = codedInside)) IN
+       /\ Verdict("crash", ~Crashed)
+       /\ Verdict("leak" \o (IF IsStd(E.rel) THEN ":std" ELSE ""), ~E.leak)
        /\ Verdict("accepts-outside" \o kind, (~Crashed /\ ~inside) => E.code # 0)
        /\ Verdict("rejects-inside" \o kind, (~Crashed /\ inside) => E.code = 0)
 
